@@ -301,7 +301,8 @@ impl<'a, SlotType: 'a + Debug> MetaSubscriber<'a, SlotType> for MMapMetaDynamicS
 
     #[inline(always)]
     fn remaining_elements_count(&self) -> usize {
-        self.meta_mmap_log_topic.mmap_contents.consumer_tail.load(Relaxed) - self.head.load(Relaxed)
+        // `head` may be past the (earlier loaded) tail: `consume()` increments it optimistically before checking for emptiness
+        self.meta_mmap_log_topic.mmap_contents.consumer_tail.load(Relaxed).saturating_sub(self.head.load(Relaxed))
     }
 
     unsafe fn peek_remaining(&self) -> Vec<&SlotType> {
@@ -358,7 +359,8 @@ impl<'a, SlotType: 'a + Debug> MetaSubscriber<'a, SlotType> for MMapMetaFixedSub
 
     #[inline(always)]
     fn remaining_elements_count(&self) -> usize {
-        self.fixed_tail - self.head.load(Relaxed)
+        // `head` may be past the tail: `consume()` increments it optimistically before checking for emptiness
+        self.fixed_tail.saturating_sub(self.head.load(Relaxed))
     }
 
     unsafe fn peek_remaining(&self) -> Vec<&SlotType> {
